@@ -37,6 +37,7 @@ class XMLTransformer(XMLGenerator, LexicalHandler):
         self.changes: list[Change] = []
         self._my_locator = Locator()
         self.line_only_matching = line_only_matching
+        self._in_cdata = False
         super().__init__(out, encoding, short_empty_elements)
 
     def startElement(self, name, attrs):
@@ -46,7 +47,11 @@ class XMLTransformer(XMLGenerator, LexicalHandler):
         super().endElement(name)
 
     def characters(self, content):
-        super().characters(content)
+        if self._in_cdata:
+            # CDATA content is literal text: it must not be escaped
+            self._write(content)  # type: ignore
+        else:
+            super().characters(content)
 
     def skippedEntity(self, name: str) -> None:
         super().skippedEntity(name)
@@ -55,9 +60,11 @@ class XMLTransformer(XMLGenerator, LexicalHandler):
         self._write(f"<!--{content}-->\n")  # type: ignore
 
     def startCDATA(self):
+        self._in_cdata = True
         self._write("<![CDATA[")  # type: ignore
 
     def endCDATA(self):
+        self._in_cdata = False
         self._write("]]>")  # type: ignore
 
     def startDTD(self, name: str, public_id: str | None, system_id: str | None):
